@@ -85,10 +85,15 @@ impl Gen {
     }
     /// Bytes that finish the current message, followed by a window announcement.
     fn take_with_announcement(&mut self, w: u32) -> Vec<u8> {
+        self.take_with_message(5, &w.to_be_bytes())
+    }
+
+    /// Bytes that finish the current message, followed by one other complete message on csid 2.
+    fn take_with_message(&mut self, type_id: u8, body: &[u8]) -> Vec<u8> {
         let rest = if self.off < self.cur.len() { self.cur.len() - self.off } else { 0 };
         let mut out = self.take(rest);
-        out.extend_from_slice(&[0x02, 0, 0, 0, 0, 0, 4, 5, 0, 0, 0, 0]);
-        out.extend_from_slice(&w.to_be_bytes());
+        out.extend_from_slice(&[0x02, 0, 0, 0, 0, 0, body.len() as u8, type_id, 0, 0, 0, 0]);
+        out.extend_from_slice(body);
         self.fresh = true; // the next Abort needs a full header again (type changed on csid 2)
         self.cur.clear();
         self.off = 0;
@@ -115,6 +120,9 @@ pub struct St {
 pub enum Act {
     Call(usize),
     Reannounce(u32),
+    /// a call that finishes the current message and carries one other message the peer may send at
+    /// any time (it only counts as bytes): (type id, body)
+    Other(u8, Vec<u8>),
 }
 
 pub struct G {
@@ -124,16 +132,17 @@ pub struct G {
     pub acks: AtomicU64,
     pub exact_landings: AtomicU64,
     pub reannouncements: AtomicU64,
+    pub others: AtomicU64,
 }
 
 fn acks_in(de: &mut ChunkDeserializer, packets: &[(Vec<u8>, bool)]) -> Result<Vec<u32>, String> {
     let outs = decode_with_lib(de, packets)?;
     let mut v = Vec::new();
     for o in outs {
-        match o.m {
-            M::Ack(n) => v.push(n),
-            other => return Err(format!("unexpected outbound message {:?}", other)),
+        if let M::Ack(n) = o.m {
+            v.push(n);
         }
+        // other replies (e.g. a ping response) are not this property's subject
     }
     Ok(v)
 }
@@ -232,6 +241,15 @@ impl Graph for G {
                 }
                 o
             }
+            Act::Other(t, body) => {
+                let bytes = g.take_with_message(*t, body);
+                self.others.fetch_add(1, Ordering::Relaxed);
+                let mut o = self.apply(s, &bytes, None, a);
+                for x in o.succ.iter_mut() {
+                    x.gen = g.clone();
+                }
+                o
+            }
         }
     }
 
@@ -248,6 +266,7 @@ impl Graph for G {
         match a {
             Act::Call(n) => json!({"handle_input_call_of_bytes": n}),
             Act::Reannounce(w) => json!({"call_finishing_current_message_then_window_announcement": w}),
+            Act::Other(t, body) => json!({"call_finishing_current_message_then_message": {"type_id": t, "body": crate::util::hex(body)}}),
         }
     }
 }
@@ -271,6 +290,7 @@ pub fn run(run: &Run) {
     let mut acks = 0u64;
     let mut exact = 0u64;
     let mut reann = 0u64;
+    let mut others = 0u64;
     let mut all_fix = true;
     let mut per_w = Vec::new();
     for kind in 0..2u8 {
@@ -281,7 +301,7 @@ pub fn run(run: &Run) {
             let mut re: Vec<u32> = vec![1, w.saturating_sub(1).max(1), w + 1, 2 * w];
             re.sort();
             re.dedup();
-            let g = G { w0: w, sizes, reannounce: re, acks: AtomicU64::new(0), exact_landings: AtomicU64::new(0), reannouncements: AtomicU64::new(0) };
+            let g = G { w0: w, sizes, reannounce: re, acks: AtomicU64::new(0), exact_landings: AtomicU64::new(0), reannouncements: AtomicU64::new(0), others: AtomicU64::new(0) };
             // initial: announce W (the call that carries it is not counted)
             let init0 = fresh(kind);
             let o = g.step(&init0, &Act::Reannounce(w));
@@ -308,6 +328,7 @@ pub fn run(run: &Run) {
             acks += g.acks.load(Ordering::Relaxed);
             exact += g.exact_landings.load(Ordering::Relaxed);
             reann += g.reannouncements.load(Ordering::Relaxed);
+            others += g.others.load(Ordering::Relaxed);
             per_w.push(json!({"session": if kind == 0 { "server" } else { "client" }, "W": w, "states": stats.states, "transitions": stats.transitions, "fixpoint": stats.fixpoint, "max_depth": stats.max_depth}));
         }
     }
@@ -333,8 +354,9 @@ pub fn run(run: &Run) {
     run.count("acknowledgements_checked", acks);
     run.count("calls_landing_exactly_on_the_window", exact);
     run.count("re_announcements_mid_stream", reann);
+    run.count("calls_carrying_other_peer_messages", others);
     run.count("sampled_large_window_scripts", sampled);
-    run.set("explanation", json!("state = (real session, model byte counter, position in an endless valid chunk stream of Abort messages); actions = one handle_input call of s bytes (every s in 0..2W+1 for W<=8, boundary sizes above) or a call that re-announces the window; on every call the Acknowledgement messages decoded from the results must be exactly what the counter model prescribes (none, or one carrying the byte count)"));
+    run.set("explanation", json!("state = (real session, model byte counter, position in an endless valid chunk stream of Abort messages); actions = one handle_input call of s bytes (every s in 0..2W+1 for W<=8, boundary sizes above), a call that re-announces the window, or a call that carries another message a peer may send at any time (Set Peer Bandwidth below W, an Acknowledgement, a ping request, Set Chunk Size); on every call the Acknowledgement messages decoded from the results must be exactly what the counter model prescribes (none, or one carrying the byte count)"));
     run.sample(json!({"session": "client", "W": 3, "ops": [{"handle_input_call_of_bytes": 2}, {"handle_input_call_of_bytes": 1}], "expect": "no ack, then one Acknowledgement(3)"}));
     run.assume("the invariant is stated for the window in force when a call starts; the bytes of the call that first announces a window are not counted (the window is learned inside that call)");
     run.assume("windows above the exhaustive range are sampled with scripted call sequences (the property statement marks them as sampled)");
@@ -369,6 +391,15 @@ impl<'a> Graph for Bounded<'a> {
                 v.push(Act::Reannounce(r));
             }
         }
+        // messages a peer may send at any time; for this property they are just bytes
+        let below = w.saturating_sub(1).max(1);
+        v.push(Act::Other(6, vec![0, 0, 0, 1, 2])); // Set Peer Bandwidth 1, dynamic
+        let mut spb = below.to_be_bytes().to_vec();
+        spb.push(0);
+        v.push(Act::Other(6, spb)); // Set Peer Bandwidth W-1, hard
+        v.push(Act::Other(3, vec![0, 0, 0, 5])); // an Acknowledgement from the peer
+        v.push(Act::Other(4, vec![0, 6, 0, 0, 0, 9])); // ping request
+        v.push(Act::Other(1, vec![0, 0, 0, 200])); // Set Chunk Size 200
         v
     }
     fn step(&self, s: &St, a: &Act) -> StepOut<St> {
